@@ -235,3 +235,7 @@ pub mod fibonacci_stark;
 pub mod permutation_stark;
 #[cfg(test)]
 pub mod unconstrained_stark;
+
+/// Read-only re-exports of crate-private items for the external verification harness in /verif.
+#[cfg(feature = "verif_hooks")]
+pub mod verif_hooks;
